@@ -8,7 +8,7 @@ PATCH=$(readlink -f "$1"); shift
 W=$(mktemp -d /tmp/mutest.XXXXXX)
 trap 'rm -rf "$W"' EXIT
 mkdir -p "$W/repo" "$W/verif"
-rsync -a --exclude .git /repo/ "$W/repo/"
+rsync -a --exclude .git "${MUTEST_REPO_SRC:-/repo}/" "$W/repo/"
 rsync -a --exclude .git --exclude .work --exclude replays --exclude evidence /verif/ "$W/verif/"
 ( cd "$W/repo" && git init -q . >/dev/null 2>&1 && git apply --whitespace=nowarn "$PATCH" ) || { echo "MUTEST: patch does not apply"; exit 3; }
 export GOFLAGS=-mod=mod GOPROXY=off GOSUMDB=off GOTOOLCHAIN=local
